@@ -110,8 +110,9 @@ def run_case(case, ctx):
         # configured through set_params after construction (what clone + set_params / a grid search does)
         m = DecisionTreeLogisticRegression(estimator=est, max_depth=params["max_depth"] + 9, min_samples_leaf=3,
                                            min_samples_split=7, gamma=2.5, p1p2=0.11)
-        m.set_params(**params)
-        cfg["configured_with"] = "set_params"
+        from vrt import layouts as _lay
+        m.set_params(**(_lay.numpy_scalars(params) if sub % 2 else params))
+        cfg["configured_with"] = "set_params" + ("/numpy-scalars" if sub % 2 else "")
     else:
         m = DecisionTreeLogisticRegression(estimator=est, **params)
     w = rng.rand(len(X)) + 0.5 if weighted else None
